@@ -31,6 +31,11 @@ if [ -n "${MUT_FUZZ:-}" ]; then
   exit $rc
 fi
 if ! cargo build --release -p "$CRATE" >"$W/build.log" 2>&1; then
+  if [ "$ID" = "C20" ]; then
+    (unset CARGO_TARGET_DIR; python3 "$W/verif/tools/c20_triage.py" "$W/verif") > "$W/triage.log" 2>&1; trc=$?
+    grep -E "^(FAILED|VIOLATION)" "$W/triage.log" | cut -c1-300 | head -6
+    if [ $trc -eq 1 ]; then echo "MUTANT DETECTED ($ID, exit 1) by the literal triage"; exit 1; fi
+  fi
   echo "MUTANT: does not compile with the harness"; tail -20 "$W/build.log"; exit 2
 fi
 if [ -x "props/$CRATE/pre.sh" ]; then (unset CARGO_TARGET_DIR; "props/$CRATE/pre.sh" "$TIER") >/dev/null 2>&1 || echo "pre.sh failed"; fi
